@@ -242,12 +242,13 @@ Theorem C01_grid_rcb_partial : forall fuel T fw ds ws k,
 Proof. exact GridC.grid_collect. Qed.
 Print Assumptions C01_grid_rcb_partial.
 
-(* PARTIAL (2): the premise on the thresholds is a theorem for total weights
-   below 2^46 (Flocq; classical-reals axioms).  What is missing with respect
-   to the property's contract ("sums that do not overflow"): totals in
-   [2^46, 2^63); f64 weights that are not integers. *)
+(* PARTIAL (2): the premise on the thresholds is a theorem (Flocq; classical-reals
+   axioms) for the totals [total_ok] covers: i64 totals below 2^46, and exact
+   dyadic f64 weights z*2^-k (k <= 1000) with z-total below 2^53.  What is
+   missing with respect to the property's contract ("sums that do not
+   overflow"): i64 totals in [2^46, 2^63); arbitrary (non-dyadic-exact) f64 sums. *)
 Theorem C01_grid_rcb_2d_partial : forall fuel T fw w h ws k,
-  (1 <= w)%nat -> (1 <= h)%nat -> length ws = (w * h)%nat -> Forall (fun x => 0 <= x) ws -> sumZ ws < 2 ^ 46 ->
+  (1 <= w)%nat -> (1 <= h)%nat -> length ws = (w * h)%nat -> Forall (fun x => 0 <= x) ws -> Coupe.Proofs.GridRcbFloat.total_ok fw (sumZ ws) ->
   (w < 2 ^ fuel)%nat -> (h < 2 ^ fuel)%nat ->
   exists ids, GridC.gridrcb_impl fuel T fw [w; h] ws k (w * h) = Ok ids
               /\ length ids = (w * h)%nat /\ Forall (fun q => (q < 2 ^ N.of_nat k)%N) ids.
@@ -256,7 +257,7 @@ Print Assumptions C01_grid_rcb_2d_partial.
 
 Theorem C01_grid_rcb_3d_partial : forall fuel T fw w h d ws k,
   (1 <= w)%nat -> (1 <= h)%nat -> (1 <= d)%nat -> length ws = (w * h * d)%nat ->
-  Forall (fun x => 0 <= x) ws -> sumZ ws < 2 ^ 46 ->
+  Forall (fun x => 0 <= x) ws -> Coupe.Proofs.GridRcbFloat.total_ok fw (sumZ ws) ->
   (w < 2 ^ fuel)%nat -> (h < 2 ^ fuel)%nat -> (d < 2 ^ fuel)%nat ->
   exists ids, GridC.gridrcb_impl fuel T fw [w; h; d] ws k (w * h * d) = Ok ids
               /\ length ids = (w * h * d)%nat /\ Forall (fun q => (q < 2 ^ N.of_nat k)%N) ids.
@@ -303,6 +304,6 @@ Example C01_nonvacuous_runs :
   /\ SfcC.zcurve_impl_2d (fun _ i => nth i [1;0]%N 0%N) Sorting.sort_by_key 2 5 2 [9;9]%N = Ok [1;0]%N
   /\ Greedy.greedy [100;1;1;1] 3 [9;9;9;9]%N = Ok [2;1;0;1]%N
   /\ Kk.kk_partition Kk.sort_stable_desc [100;1;1;1] 3 [9;9;9;9]%N = Ok [0;1;1;2]%N
-  /\ GridC.gridrcb_impl 41 1 false [4; 4]%nat (repeat 1 16) 2 16
+  /\ GridC.gridrcb_impl 41 1 GridRcb.I64 [4; 4]%nat (repeat 1 16) 2 16
      = Ok [0; 0; 1; 1; 0; 0; 1; 1; 2; 2; 3; 3; 2; 2; 3; 3]%N.
 Proof. vm_compute. repeat split; reflexivity. Qed.
